@@ -180,6 +180,8 @@ struct Oracle<'a> {
     /// span id (as observed in the node's body) -> (node, role, how it was reached)
     roles: HashMap<u64, (u32, Role, &'static str)>,
     found: Vec<(String, String)>,
+    /// indexes into `found` whose signature is reported without the runtime's name
+    no_env_suffix: HashSet<usize>,
     // measurements
     n_tp_reads: u64,
     n_new_sampled: u64,
@@ -269,6 +271,7 @@ impl<'a> Oracle<'a> {
             stray,
             roles: HashMap::new(),
             found: Vec::new(),
+            no_env_suffix: HashSet::new(),
             n_tp_reads: 0,
             n_new_sampled: 0,
             n_new_unsampled: 0,
@@ -586,10 +589,44 @@ impl<'a> Oracle<'a> {
                         Via::Direct => inside,
                         Via::Thread => {
                             self.n_handoffs += 1;
-                            let sig = format!("handoff-frame-traceparent:{}", k);
-                            self.expect_tp(node.id, Point::ViaIn(i), &inside, true, &sig);
-                            self.expect_tp(node.id, Point::ViaOut(i), &inside, true, &restored("after-child-on-other-thread"));
-                            inside
+                            // what the other thread sees inside the captured `Frame::current(ctxt)`
+                            let seen_there = self
+                                .obs
+                                .get(&(node.id, Point::ViaIn(i)))
+                                .and_then(|v| v.first())
+                                .map(|o| o.tp.unwrap_or(Tp::EMPTY));
+                            let there = match seen_there {
+                                Some(t) if t != inside => {
+                                    self.n_tp_reads += 1;
+                                    // one precise signature, then carry on from what was actually there
+                                    // (otherwise every span below would be reported again)
+                                    self.found.push((
+                                        format!(
+                                            "C18:captured-frame-does-not-carry-traceparent:{}",
+                                            if t == Tp::EMPTY { "other-thread-sees-none" } else { "other-thread-sees-another" }
+                                        ),
+                                        format!(
+                                            "node {} step {}: Frame::current(ctxt).in_fn(..) captured where Traceparent::current() is {} but on the thread it was handed to Traceparent::current() is {}",
+                                            node.id,
+                                            i,
+                                            inside.show(),
+                                            t.show()
+                                        ),
+                                    ));
+                                    self.no_env_suffix.insert(self.found.len() - 1);
+                                    t
+                                }
+                                Some(t) => {
+                                    self.n_tp_reads += 1;
+                                    t
+                                }
+                                None => {
+                                    self.bad("interpreter:handoff-not-observed".into(), format!("node {} step {}", node.id, i));
+                                    inside
+                                }
+                            };
+                            self.expect_tp(node.id, Point::ViaOut(i), &there, true, &restored("after-child-on-other-thread"));
+                            there
                         }
                         Via::Header { spec, .. } => {
                             *self.n_headers.entry(vn).or_default() += 1;
@@ -798,8 +835,12 @@ fn eval<X: Env>(r: &mut Report, in_sampled: bool, seed: u64, index: u64, tree: &
         r.sample(|| json!({"seed": seed, "index": index, "env": X::NAME, "sampler_table": table, "sampler_calls": calls, "events_recorded": n_ev, "tree": tree.to_json()}));
     }
     let found = std::mem::take(&mut o.found);
-    for (sig, what) in found {
-        r.violation(&format!("{}:{}", sig, X::NAME), &what, case());
+    for (idx, (sig, what)) in found.into_iter().enumerate() {
+        if o.no_env_suffix.contains(&idx) {
+            r.violation(&sig, &format!("[{}] {}", X::NAME, what), case());
+        } else {
+            r.violation(&format!("{}:{}", sig, X::NAME), &what, case());
+        }
     }
 }
 
